@@ -275,12 +275,15 @@ func scanExitDominates(miss *ssa.BasicBlock, at ssa.Instruction) bool {
 // one, or the result of a constructor of the module that returns one) and returns the facts of
 // its single "true" outcome in fl.Fn's terms: the predicate's first parameter is "elem", captured
 // variables are replaced by what they are bound to (constructor parameters by the arguments).
-func predicateFacts(fl *Flow, v ssa.Value) ([]Fact, bool) {
+func predicateFacts(fl *Flow, v ssa.Value) ([]Fact, bool) { return predicateFactsPol(fl, v, true) }
+
+// predicateFactsPol: what holds when the predicate answers `truth` (a single way), in the terms of fl's function.
+func predicateFactsPol(fl *Flow, v ssa.Value, truth bool) ([]Fact, bool) {
 	cl, env := resolveClosure(fl, v)
 	if cl == nil {
 		return nil, false
 	}
-	ways := trueEdges(NewFlow(fl.P, cl))
+	ways := boolEdges(NewFlow(fl.P, cl), truth)
 	if len(ways) != 1 {
 		return nil, false
 	}
